@@ -3,8 +3,12 @@ C12 second pass (core Lean only): `gpymodel C12verify` reads, per program, the c
 objects dumped by `gpyh C12` (one `O` line each) and the distinct VM states the
 hook H2 observed (`T` lines), runs the PROVED verifier on every object and checks
 every observation against the certificate.  One reply line per program (`E`).
+[C12-ext2 g3] `S` lines: two CONSECUTIVE observations of one frame, checked against the abstract machine's
+step relation (`stepConforms`; its exact meaning is proved in ConformProofs.lean); `I` lines: the first
+observation of a frame (must be pc 0, empty stack, no block).
 -/
 import GPy.C12.Verify
+import GPy.C12.Depth  -- [C12-ext2 g1]
 namespace GPy.C12
 
 def hexVal (c : Char) : Nat :=
@@ -53,7 +57,49 @@ def conforms (cert : Cert) (pc depth : Nat) (kinds : List String) (blocks : Stri
     a.1.length == depth && obsBlockStr a.2 == blocks &&
     (kinds.isEmpty || ((a.1.reverse.zip kinds).all fun (k, o) => kindMatches k o))
 
+-- [C12-ext2 g3] begin
+/-- does the abstract state `a` explain an observed (depth, kinds bottom-first, block stack string)? -/
+def matchAS (a : AS) (depth : Nat) (kinds : List String) (blocks : String) : Bool :=
+  a.1.length == depth && obsBlockStr a.2 == blocks &&
+  (kinds.isEmpty || ((a.1.reverse.zip kinds).all fun (k, o) => kindMatches k o))
+
+/-- an observation as the harness prints it -/
+structure Obs where
+  pc : Nat
+  depth : Nat
+  kinds : List String
+  blocks : String
+
+def Obs.parse (pc depth kinds blocks : String) : Obs :=
+  ⟨pc.toNat!, depth.toNat!, if kinds == "-" then [] else kinds.splitOn ",", blocks⟩
+
+/-- does the outcome continue the frame in a state that explains `o2`?  (`yield s'`: the frame is suspended and
+`s'` is the state in which it is observed again, after `Generator.Send` pushed the sent value) -/
+def outcomeMatches (o2 : Obs) : Outcome → Bool
+  | .next s' => s'.pc == o2.pc && matchAS (s'.stk, s'.blk) o2.depth o2.kinds o2.blocks
+  | .yield s' => s'.pc == o2.pc && matchAS (s'.stk, s'.blk) o2.depth o2.kinds o2.blocks
+  | _ => false
+
+/-- two consecutive observations of one frame are an instance of the abstract machine's step relation:
+some predicted state at `o1.pc` explains `o1` and one of its `step` outcomes explains `o2` -/
+def stepConforms (c : Code) (cert : Cert) (o1 o2 : Obs) : Bool :=
+  (cert.at o1.pc).any fun a =>
+    matchAS a o1.depth o1.kinds o1.blocks && (step c ⟨o1.pc, a.1, a.2⟩).any (outcomeMatches o2)
+
+def outcomeStr : Outcome → String
+  | .next s => s!"next pc={s.pc} {stkStr s.stk}{blkStr s.blk}"
+  | .yield s => s!"resume pc={s.pc} {stkStr s.stk}{blkStr s.blk}"
+  | .ret => "return"
+  | .raise => "raise"
+  | .bad m => s!"bad({m})"
+-- [C12-ext2 g3] end
+
 structure ProgAcc where
+  -- [C12-ext2 g3] begin
+  codes : Array Code := #[]
+  trans : Nat := 0                     -- distinct transitions checked against `step`
+  starts : Nat := 0                    -- distinct first observations of a frame
+  -- [C12-ext2 g3] end
   certs : Array (Option Cert) := #[]
   names : Array String := #[]
   verdict : Option String := none      -- first failure
@@ -62,6 +108,37 @@ structure ProgAcc where
   maxdepth : Nat := 0
   obs : Nat := 0
   tight : Nat := 0                     -- objects whose predicted max depth equals Stacksize
+  -- [C12-ext2 g1] begin: gpython's StackDepth() (model) on the disassembled stream of every emitted object
+  dwalked : Nat := 0                   -- objects the walk was evaluated on (at most `depthWalkLimit` instructions)
+  deq : Nat := 0                       -- … whose model StackDepth() equals the real Stacksize
+  dclosed : Nat := 0                   -- … whose walk result is closed under its own edge rules (hypothesis 1)
+  dexcl : Nat := 0                     -- … whose certificate predicts an excluded state shape (hypothesis 2 fails)
+  dthm : Nat := 0                      -- … to which stackdepth_upper_bound_partial applies (closed, not excluded)
+  dbelow : Nat := 0                    -- … whose model StackDepth() is BELOW the certificate's max depth (must stay 0)
+  dhigh : Nat := 0                     -- … whose model StackDepth() is ABOVE the real Stacksize (labels merged by `disasm` can only prune more)
+  -- [C12-ext2 g1] end
+  -- [C12-ext2 g4] begin
+  lines : Nat := 0                     -- traceback entries whose line was recomputed with `addr2line`
+  -- [C12-ext2 g4] end
+
+-- [C12-ext2 g1] begin
+def depthWalkLimit : Nat := 250
+
+def ProgAcc.depthStats (p : ProgAcc) (c : Code) (cert : Cert) : ProgAcc :=
+  if cert.starts.length > depthWalkLimit then p else
+  match walkOf c with
+  | none => { p with dwalked := p.dwalked + 1 }
+  | some w =>
+    let closed := depthClosedB c (walkD c w) w.maxdepth
+    let excl := walkExcludedB c cert
+    { p with dwalked := p.dwalked + 1,
+             deq := p.deq + (if w.maxdepth == (c.stacksize : Int) then 1 else 0),
+             dclosed := p.dclosed + (if closed then 1 else 0),
+             dexcl := p.dexcl + (if excl then 1 else 0),
+             dthm := p.dthm + (if closed && !excl then 1 else 0),
+             dbelow := p.dbelow + (if w.maxdepth < (cert.maxDepth : Int) then 1 else 0),
+             dhigh := p.dhigh + (if w.maxdepth > (c.stacksize : Int) then 1 else 0) }
+-- [C12-ext2 g1] end
 
 def ProgAcc.fail (p : ProgAcc) (m : String) : ProgAcc :=
   match p.verdict with | none => { p with verdict := some m } | some _ => p
@@ -73,9 +150,10 @@ def handleLine (p : ProgAcc) (line : String) : ProgAcc :=
     match parseCode f with
     | none => p.fail s!"PROTOCOL bad O line"
     | some (idx, c) =>
-      let p := { p with objs := p.objs + 1, names := p.names.push c.name }
+      let p := { p with objs := p.objs + 1, names := p.names.push c.name, codes := p.codes.push c }
       match verify c with
       | .ok cert =>
+        let p := p.depthStats c cert   -- [C12-ext2 g1]
         { p with certs := p.certs.push (some cert), states := p.states + cert.numStates,
                  maxdepth := max p.maxdepth cert.maxDepth,
                  tight := p.tight + (if cert.maxDepth == c.stacksize then 1 else 0) }
@@ -93,6 +171,46 @@ def handleLine (p : ProgAcc) (line : String) : ProgAcc :=
           p.fail s!"MISMATCH obj={idx}:{p.names[idx.toNat!]!} pc={pc} observed depth={depth} kinds={kinds} blocks={blocks} predicted={pred}"
       | _ => p
     | _ => p.fail "PROTOCOL bad T line"
+  -- [C12-ext2 g3] begin
+  | some "I" =>
+    -- first observation of a frame: RunFrame starts at Lasti 0 with an empty value stack and no block
+    match f with
+    | [_, idx, pc, depth, kinds, blocks] =>
+      let p := { p with starts := p.starts + 1 }
+      if pc == "0" && depth == "0" && blocks == "-" then p
+      else p.fail s!"START-MISMATCH obj={idx}:{p.names[idx.toNat!]!} first observation of a frame at pc={pc} depth={depth} kinds={kinds} blocks={blocks} (expected pc=0, empty stack, no block)"
+    | _ => p.fail "PROTOCOL bad I line"
+  | some "S" =>
+    match f with
+    | [_, idx, pc1, d1, k1, b1, pc2, d2, k2, b2] =>
+      let p := { p with trans := p.trans + 1 }
+      match p.certs[idx.toNat!]?, p.codes[idx.toNat!]? with
+      | some (some cert), some c =>
+        let o1 := Obs.parse pc1 d1 k1 b1
+        let o2 := Obs.parse pc2 d2 k2 b2
+        if stepConforms c cert o1 o2 then p
+        else
+          let cands := (cert.at o1.pc).filter fun a => matchAS a o1.depth o1.kinds o1.blocks
+          let succ := "|".intercalate (cands.map fun a =>
+            s!"{stkStr a.1}{blkStr a.2} => " ++ "; ".intercalate ((step c ⟨o1.pc, a.1, a.2⟩).map outcomeStr))
+          let ins := match decodeAt c.code o1.pc with | some i => s!"{repr i.op} {i.arg}" | none => "?"
+          p.fail s!"STEP-MISMATCH obj={idx}:{p.names[idx.toNat!]!} pc1={pc1} ({ins}) depth={d1} kinds={k1} blocks={b1} → pc2={pc2} observed depth={d2} kinds={k2} blocks={b2} possible successors {succ}"
+      | _, _ => p
+    | _ => p.fail "PROTOCOL bad S line"
+  -- [C12-ext2 g3] end
+  -- [C12-ext2 g4] begin
+  -- `L idx lasti lineno`: a traceback entry of the real run; py/traceback.go's Lineno must be `addr2line c (lasti - 1)`
+  | some "L" =>
+    match f with
+    | [_, idx, lasti, lineno] =>
+      match p.codes[idx.toNat!]? with
+      | some c =>
+        let want := addr2line c (lasti.toNat! - 1)
+        if want == lineno.toNat! then { p with lines := p.lines + 1 }
+        else p.fail s!"LINEMISMATCH obj={idx}:{c.name} lasti={lasti} traceback line={lineno} addr2line={want}"
+      | none => p.fail "PROTOCOL L line for an unknown object"
+    | _ => p.fail "PROTOCOL bad L line"
+  -- [C12-ext2 g4] end
   | _ => p.fail s!"PROTOCOL unknown line"
 
 partial def verifyLoop (stdin : IO.FS.Stream) (stdout : IO.FS.Stream) (p : ProgAcc) : IO Unit := do
@@ -102,7 +220,9 @@ partial def verifyLoop (stdin : IO.FS.Stream) (stdout : IO.FS.Stream) (p : ProgA
   if line == "E" then
     match p.verdict with
     | some m => stdout.putStrLn m
-    | none => stdout.putStrLn s!"ok objs={p.objs} states={p.states} maxdepth={p.maxdepth} obs={p.obs} tight={p.tight}"
+    | none => stdout.putStrLn (s!"ok objs={p.objs} states={p.states} maxdepth={p.maxdepth} obs={p.obs} tight={p.tight} trans={p.trans} starts={p.starts}" ++
+        s!" dw={p.dwalked} deq={p.deq} dclosed={p.dclosed} dexcl={p.dexcl} dthm={p.dthm} dbelow={p.dbelow} dhigh={p.dhigh}" ++   -- [C12-ext2 g1]
+        (if p.lines == 0 then "" else s!" lines={p.lines}"))  -- [C12-ext2 g4] ` lines=` suffix
     stdout.flush
     verifyLoop stdin stdout {}
   else
